@@ -128,6 +128,7 @@ func autoPatterns(body string, boundNames []string) string {
 	}
 	seen := map[string]bool{}
 	var cands []cand
+	inner := map[string]bool{} // variables bound by nested quantifiers: unusable in our patterns
 	var walk func(n *sexp, underQuant bool)
 	walk = func(n *sexp, underQuant bool) {
 		if n == nil || n.atom != "" {
@@ -135,8 +136,13 @@ func autoPatterns(body string, boundNames []string) string {
 		}
 		h := n.head()
 		if h == "forall" || h == "exists" {
-			// nested quantifier: its own bound variables are not ours; skip inner terms that use them
+			// nested quantifier: terms mentioning its bound variables cannot be our triggers
 			if len(n.kids) >= 3 {
+				for _, b := range n.kids[1].kids {
+					if len(b.kids) > 0 {
+						inner[b.kids[0].atom] = true
+					}
+				}
 				walk(n.kids[2], true)
 			}
 			return
@@ -145,7 +151,9 @@ func autoPatterns(body string, boundNames []string) string {
 			if n.arithFree() && !seen[n.text] {
 				vs := map[string]bool{}
 				n.vars(bound, vs)
-				if len(vs) > 0 {
+				iv := map[string]bool{}
+				n.vars(inner, iv)
+				if len(vs) > 0 && len(iv) == 0 {
 					// maximal terms preferred: skip if it is a bare (select A k) of a 2-D array? keep all
 					seen[n.text] = true
 					cands = append(cands, cand{n.text, vs, len(n.text)})
